@@ -414,6 +414,13 @@ class TreeFn:
         f = e.func
         kw = {k.arg: k.value for k in e.keywords}
         if isinstance(f, ast.Name):
+            if f.id == "bool" and len(e.args) == 1 and not kw:
+                return self.test(e.args[0], env), "bool"
+            if f.id == "getattr" and len(e.args) == 3 and not kw and isinstance(e.args[1], ast.Constant) and isinstance(e.args[1].value, str) \
+                    and isinstance(e.args[2], ast.Constant) and e.args[2].value is None and isinstance(e.args[0], ast.Name) \
+                    and env.get(e.args[0].id) == "inv":
+                # getattr(invocation, "<field>", None): an InvokeDefinition always has the field; the None default reads like the empty list
+                return self.expr(ast.Attribute(value=e.args[0], attr=e.args[1].value, ctx=ast.Load()), env)
             if f.id == "set" and not kw:
                 if not e.args:
                     return "(@nil nat)", "nodes"
@@ -1037,6 +1044,7 @@ SPECS = [
          params=[("domain", "optnode"), ("target_state", "node")], ret="nodes", needs=["v_C", "v_H"]),
     dict(func="_record_history", coqname="record_history_src", params=[("states_to_exit", "nodes")], ret="hist",
          needs=["v_C", "v_H"], mutates_hist=True),
+    dict(func="_has_error_handler", coqname="has_error_handler_src", params=[("invocation", "inv")], ret="bool"),
     # selection: the guard of a transition is read through the oracle `gpass : trans -> bool` (the nested helper _passes)
     dict(func="_collect_eligible_transitions", coqname="collect_eligible_transitions",
          params=[("state", "node"), ("event", "event"), ("guard_cache", "cache")], ret="trns", needs=["gpass"], guard_oracle=True),
